@@ -720,3 +720,17 @@ Definition pathmatch_w_spec (pattern path base : str) (isdir : bool) : Prop :=
 Definition pathmatch_w_spec_b (pattern path base : str) (isdir : bool) : bool :=
   negb (is_nil pattern) &&
   rsearch (is_real pattern) (iter_pattern_w pattern base) (path_seen_w pattern path base isdir).
+
+(* ------------------------------------------------------------------ *)
+(* The domain of the end-to-end theorem (C31_pathmatch_total), executable for
+   the check: pattern and path (joined with the base path where the code does)
+   are rooted or do not begin with a ".." component, and the pattern is
+   absolute/relative, or the base path is empty, or its canonical form is not
+   empty.  FastProofs.in_domain_ok relates it to the premises of the theorem. *)
+Definition dom_canon_ok (raw : str) : bool :=
+  is_abs raw || negb (str_eqb (hd [] (split SL raw)) [DOT; DOT]).
+
+Definition in_domain (pattern path base : str) : bool :=
+  dom_canon_ok (if is_rel_pattern pattern then join_raw base pattern else join_raw pattern []) &&
+  dom_canon_ok (if is_abs path then join_raw path [] else join_raw base path) &&
+  (is_real pattern || is_nil (cstr base) || negb (is_nil (canon_pattern pattern base))).
